@@ -218,6 +218,21 @@ def limit_cases(rng):
             c.append(([], free + b'\x61' * n))
             c.append(([], b'\x00\x63' + free + b'\x68' + b'\x61' * (n - 2) + b'\x51'))
         c.append(([], b'\x4f\x00' + b''.join(push(b'k') for _ in range(20)) + b'\x01\x14\xae' + b'\x61' * (n - 21)))
+    # PUSHDATA2 / PUSHDATA4 whose length field has high bytes set (the declared length exceeds the script)
+    for sc in (b'\x4e\x01\x00\x00\x01\x51', b'\x4e\x01\x00\x01\x00\x51', b'\x4e\x00\x00\x00\x80', b'\x4e\x02\x00\x00\x00\x51\x51\x51',
+               b'\x4d\x01\x01\x51', b'\x4d\x01\x00\x51\x51', b'\x4c\x02\x51', b'\x4e\xff\xff\xff\xff', b'\x4d\xff\xff' + b'\x51' * 10):
+        c.append(([], sc))
+        c.append(([], b'\x00\x63' + sc + b'\x68\x51'))
+        c.append(([], b'\x51' + sc))
+    # a signature whose push also occurs INSIDE the data of a larger push of the script (not at an opcode boundary)
+    for n in (9, 33, 72):
+        sg = bytes([0x30] + [(3 * n + k) % 251 + 1 for k in range(n - 1)])
+        kk = b'\x02' + bytes(range(1, 33))
+        inner = b'\xaa' + push(sg) + b'\xbb'
+        c.append(([b'', sg], b'\x51' + push(kk) + b'\x51\xae' + push(inner) + b'\x75'))
+        c.append(([b'', sg], push(inner) + b'\x75\x51' + push(kk) + b'\x51\xae'))
+        c.append(([sg], push(inner) + b'\x75' + push(kk) + b'\xac'))
+        c.append(([sg], push(sg) + b'\x75' + push(inner) + b'\x75' + push(kk) + b'\xac'))
     # opcodes without a name-table entry (0xba..0xff) exactly at / over the operation limit, executed and not
     for opc in (0xba, 0xbb, 0xc0, 0xf9, 0xfa, 0xfc, 0xfd, 0xff, 0x50, 0x62, 0x89):
         for n in (200, 201):
